@@ -36,6 +36,7 @@ func GenC10(verifSeed uint64, run int) *Scenario {
 	plan := &C10Plan{SrcMode: Pick(g, []string{"rel", "abs"}), GoMaxProcs: Pick(g, []int{1, 4, 16})}
 	variant := func(patch func(m map[string]any)) string {
 		m := cloneTree(cfg).(map[string]any)
+		normalizeSig(m)
 		patch(m)
 		return RenderConfig(m)
 	}
@@ -157,6 +158,7 @@ type debSigCfg struct {
 func debSigOf(cfgText string) debSigCfg {
 	var m map[string]any
 	yaml.Unmarshal([]byte(cfgText), &m)
+	normalizeSig(m)
 	d, _ := m["deb"].(map[string]any)
 	s, _ := d["signature"].(map[string]any)
 	out := debSigCfg{}
@@ -172,6 +174,7 @@ func debSigOf(cfgText string) debSigCfg {
 func apkKeyNameOf(cfgText string) string {
 	var m map[string]any
 	yaml.Unmarshal([]byte(cfgText), &m)
+	normalizeSig(m)
 	a, _ := m["apk"].(map[string]any)
 	s, _ := a["signature"].(map[string]any)
 	if v, ok := s["key_name"].(string); ok && v != "" {
